@@ -183,6 +183,7 @@ class Ctx:
         return r, m
 
     def feasible(self, f):
+        # (feasibility stays with z3 even for cvc5-first contracts: cvc5 needs its whole time limit on satisfiable string queries)
         r, _ = self._check(f)
         return r != z3.unsat     # unknown counts as feasible (sound for proofs)
 
